@@ -123,36 +123,43 @@ theorem inactive_independence_per_operation {α : Type} [Scalar α] (K : Kernel 
     y[rank A g]? = y'[rank A' g]? :=
   indep_one_op K A A' sel L L' hs hs' src tgt hsrc htgt hAA y y' hy hy' g hg hg'
 
-/-- `inactive_independence` for whole programs of any length, implementation semantics: if the
-same program is accepted under two ACTNUMs `A` and `A'` (any two, not only `A ⊆ A'`), then at
-every global cell `g` that is active at the end of both runs every array holds the same value
-and status (cell `g` is found at active index `rank t.act g` resp. `rank t'.act g`).
+/-- **`inactive_independence` for whole programs of any length (OPERATER included), implementation
+semantics, STORES**: if the same program is accepted under two ACTNUMs `A` and `A'` (any two, not only
+`A ⊆ A'`), then the same arrays are stored in both final states and at every global cell `g` that is
+active at the end of both runs every stored array holds the same value and status (cell `g` is found at
+active index `rank t.act g` resp. `rank t'.act g`).
 
-Top-layer keywords (PORO, PERMX/Y/Z in GRID) are included: since fix 0679405ff the top layer is
-read from all cells of the box, active or not.
-
-`_partial` because of one hypothesis:
-* `P.NoOperR` — no OPERATER keyword.  OPERATER creates its source array only when the region has
-  an ACTIVE cell, so the SET of stored arrays depends on the ACTNUM and the conclusion as stated
-  here (equal STORES) is false with it (example `opP` at the end of this file).
-The full shape — view equality at `g` for every keyword, without `P.NoOperR` — is
-`inactive_independence` below. -/
-theorem inactive_independence_partial {α : Type} [RealOps α] (D : Dims) (hD : DPos D) (T : Tables α)
-    (P : Prog α) (hP : P.NoOperR) (A A' : List Bool) (hA : A.length = D.size)
+Top-layer keywords (PORO, PERMX/Y/Z in GRID) are included: since fix 0679405ff the top layer is read
+from all cells of the box, active or not.  OPERATER is included: since fix bf5bceae1 it fetches (creates)
+its source array before it looks at the region, so the set of stored arrays no longer depends on the
+ACTNUM. -/
+theorem inactive_independence_stores {α : Type} [RealOps α] (D : Dims) (hD : DPos D) (T : Tables α)
+    (P : Prog α) (A A' : List Bool) (hA : A.length = D.size)
     (hA' : A'.length = D.size) (t t' : St α)
     (h : runProg .impl D T (initSt A) P = some t) (h' : runProg .impl D T (initSt A') P = some t')
     (g : Nat) (hg : g < D.size) (hact : isActive t.act g = true) (hact' : isActive t'.act g = true) :
     smap (fun x => cellAt x (rank t.act g)) t.dbls = smap (fun x => cellAt x (rank t'.act g)) t'.dbls ∧
     smap (fun x => cellAt x (rank t.act g)) t.ints = smap (fun x => cellAt x (rank t'.act g)) t'.ints :=
-  runProg_indep_impl D hD T P hP A A' hA hA' t t' h h' g hg hact hact'
+  runProg_indep_impl D hD T P A A' hA hA' t t' h h' g hg hact hact'
+
+/-- The statement of the earlier rounds (kept verbatim): the same with the hypothesis `P.NoOperR`, which
+is no longer needed — a corollary of `inactive_independence_stores`. -/
+theorem inactive_independence_partial {α : Type} [RealOps α] (D : Dims) (hD : DPos D) (T : Tables α)
+    (P : Prog α) (_hP : P.NoOperR) (A A' : List Bool) (hA : A.length = D.size)
+    (hA' : A'.length = D.size) (t t' : St α)
+    (h : runProg .impl D T (initSt A) P = some t) (h' : runProg .impl D T (initSt A') P = some t')
+    (g : Nat) (hg : g < D.size) (hact : isActive t.act g = true) (hact' : isActive t'.act g = true) :
+    smap (fun x => cellAt x (rank t.act g)) t.dbls = smap (fun x => cellAt x (rank t'.act g)) t'.dbls ∧
+    smap (fun x => cellAt x (rank t.act g)) t.ints = smap (fun x => cellAt x (rank t'.act g)) t'.ints :=
+  runProg_indep_impl D hD T P A A' hA hA' t t' h h' g hg hact hact'
 
 /-- **`inactive_independence`, full shape: whole programs of any length WITH OPERATER**, any two ACTNUMs.
 If the same program is accepted under `A` and `A'`, then at every global cell `g` active at the end of
 both runs, what `init_get<double>(kw)` / `init_get<int>(kw)` returns (the stored array, or the freshly
 initialised one when the keyword has not been stored — the only way any reader, including
 `get_double`/`get_int`, sees the store) has the same value and status, for every keyword of the tables.
-(The stores themselves may differ: OPERATER creates its source array only when the region has an
-active cell; see the example below.)
+(Proved in round 3 against the code before bf5bceae1, where the stores themselves could differ; with the
+fixed code the stores agree — `inactive_independence_stores` — and this statement also follows from that.)
 
 `TablesOK T` is a hypothesis on the keyword tables only: no keyword called `__MULT__…`, every double
 keyword declared once, ACTNUM an integer keyword with default 1.  It is decidable
@@ -173,23 +180,23 @@ theorem inactive_independence {α : Type} [RealOps α] (D : Dims) (hD : DPos D) 
 theorem tables_hypothesis_decidable {α : Type} [RealOps α] (T : Tables α) (h : tablesOkB T = true) : TablesOK T :=
   tablesOK_of_check T h
 
-/-- The reason behind it, OPERATER included: the one-cell projection of an accepted reference run
-stays below (`VLe`: same stored cells; extra arrays hold the freshly initialised cell) the state of
-the normalised one-cell run `runProg1N`, a function of the program alone that sees neither the
-ACTNUM nor any other cell and needs no oracle. -/
+/-- Monotonicity of the one-cell semantics in its start state: if the projection of the start state is
+below `a0` (`VLe`: same stored cells; extra arrays hold the freshly initialised cell), the one-cell run
+from `a0` is accepted and stays above the projection of the accepted reference run. -/
 theorem active_cell_view_evolves_alone {α : Type} [RealOps α] (g : Nat) (D : Dims) (hD : DPos D) (T : Tables α)
     (hT : TablesOK T) (hg : g < D.size) (s0 : St α) (hw : WF D s0) (a0 : St1 α) (hv : VLe T (proj g s0) a0)
     (P : Prog α) (s : St α) (h : runProg .ref D T s0 P = some s) (hact : isActive s.act g = true) :
-    ∃ z, runProg1N g D T a0 P = some z ∧ VLe T (proj g s) z :=
+    ∃ z, runProg1 g D T a0 P = some z ∧ VLe T (proj g s) z :=
   runProg_sim g D hD T hT hg s0 hw a0 hv P s h hact
 
 /-- The reason behind it: in an accepted reference run the content of an active cell evolves by
-a one-cell semantics (`runProg1`) that sees neither the ACTNUM nor any other cell. -/
+a one-cell semantics (`runProg1`) that sees neither the ACTNUM nor any other cell — every keyword,
+OPERATER included (hypothesis `P.NoOperR` of the earlier rounds dropped). -/
 theorem active_cell_evolves_alone {α : Type} [RealOps α] (g : Nat) (D : Dims) (hD : DPos D) (T : Tables α)
-    (hg : g < D.size) (s0 : St α) (hw : WF D s0) (P : Prog α) (hP : P.NoOperR) (s : St α)
+    (hg : g < D.size) (s0 : St α) (hw : WF D s0) (P : Prog α) (s : St α)
     (h : runProg .ref D T s0 P = some s) (hact : isActive s.act g = true) :
     runProg1 g D T (proj g s0) P = some (proj g s) :=
-  runProg_proj g D hD T hg s0 hw P hP s h hact
+  runProg_proj g D hD T hg s0 hw P s h hact
 
 /-! ### The semantics the code has (pinned as the reference) -/
 
@@ -417,11 +424,11 @@ example :
 example : sampleP.NoOperR := by
   simp [Prog.NoOperR, sampleP, Kw.noOperR]
 
-/-! ### OPERATER: the stored arrays depend on the ACTNUM, the views do not.  1×1×2 grid, OPERNUM = 1, 2;
-`OPERATER NTG 2 MULTX MULTZ 3` (region 2 of OPERNUM, source MULTZ not stored yet).  With both cells
-active the region has an active cell and MULTZ is created; with the lower cell inactive the record is
-skipped and MULTZ is never stored.  The upper cell (active in both) shows NTG = default 1 and
-MULTZ = default 1 in both runs. -/
+/-! ### OPERATER (code as fixed by bf5bceae1): 1×1×2 grid, OPERNUM = 1, 2; `OPERATER NTG 2 MULTX MULTZ 3`
+(region 2 of OPERNUM, source MULTZ not stored yet).  With both cells active the region has an active
+cell and the record is applied; with the lower cell inactive the record is skipped — but MULTZ is stored
+in BOTH runs (before the fix it was stored only in the first), and the upper cell (active in both) shows
+NTG = default 1 and MULTZ = default 1 in both. -/
 
 def opD : Dims := ⟨1, 1, 2⟩
 def opT : Tables Int :=
@@ -439,7 +446,7 @@ example :
     (runProg .impl opD opT (initSt [true, true]) opP).map (fun t => t.dbls) =
       some [("NTG", [⟨.validDefault, 1⟩, ⟨.validDefault, 3⟩]), ("MULTZ", [⟨.validDefault, 1⟩, ⟨.validDefault, 1⟩])] ∧
     (runProg .impl opD opT (initSt [true, false]) opP).map (fun t => t.dbls) =
-      some [("NTG", [⟨.validDefault, 1⟩])] := by
+      some [("NTG", [⟨.validDefault, 1⟩]), ("MULTZ", [⟨.validDefault, 1⟩])] := by
   decide +kernel
 
 -- status machine / box carry-over instances
